@@ -187,9 +187,22 @@ use crate::lebytes::*;
 //@ root programs/whirlpool/src
 //@ assume pinocchio token shims: load_token_program_account_unchecked / parse_token_extensions (raw-pointer TLV parsing) and Clock::get are external stubs; the transfer-fee-config view exposes the six little-endian fields through assumed accessors
 pub struct MemoryMappedTokenMint { pub x: u8 }
+/// the mint account's bytes as the (unchecked) loader maps them, its TLV area, and what the hand-written TLV parser finds in it: uninterpreted
+pub uninterp spec fn mint_of(a: AccountInfo) -> MemoryMappedTokenMint;
+pub uninterp spec fn tlv_of(m: MemoryMappedTokenMint) -> Seq<u8>;
+pub uninterp spec fn ext_of(tlv: Seq<u8>) -> Option<MemoryMappedTransferFeeConfigExtension>;
+/// the transfer-fee config extension of a mint account (None: plain SPL token or no such extension)
+pub open spec fn mint_cfg(a: AccountInfo) -> Option<MemoryMappedTransferFeeConfigExtension> { ext_of(tlv_of(mint_of(a))) }
+/// the schedule in force: the newer one from its epoch on
+pub open spec fn pino_schedule_of(c: MemoryMappedTransferFeeConfigExtension) -> TransferFee {
+    if current_epoch() >= c.newer_epoch() { TransferFee { epoch: PodU64(c.newer_epoch()), maximum_fee: PodU64(c.newer_max()), transfer_fee_basis_points: PodU16(c.newer_bps()) } }
+    else { TransferFee { epoch: PodU64(c.older_epoch()), maximum_fee: PodU64(c.older_max()), transfer_fee_basis_points: PodU16(c.older_bps()) } }
+}
+/// the fee the Token-2022 program withholds from a transfer of x units of the mint in account `a`
+pub open spec fn pino_mint_fee(a: AccountInfo, x: int) -> int { match mint_cfg(a) { Some(c) => pino_schedule_of(c).fee(x), None => 0 } }
 impl MemoryMappedTokenMint {
     #[verifier::external_body]
-    pub fn extensions_tlv_data(&self) -> (r: &[u8]) { unimplemented!() }
+    pub fn extensions_tlv_data(&self) -> (r: &[u8]) ensures r@ == tlv_of(*self) { unimplemented!() }
 }
 pub type BytesU16 = [u8; 2];
 pub type BytesU64 = [u8; 8];
@@ -233,10 +246,11 @@ impl Clock {
     pub fn get() -> (r: Result<ClockData>) ensures r matches Ok(c) ==> c.epoch == current_epoch() { unimplemented!() }
 }
 #[verifier::external_body]
-pub fn load_token_program_account_unchecked<T>(a: &AccountInfo) -> (r: Result<Box<T>>) { unimplemented!() }
+pub fn load_token_program_account_unchecked<T>(a: &AccountInfo) -> (r: Result<Box<MemoryMappedTokenMint>>) ensures r matches Ok(b) ==> *b == mint_of(*a) { unimplemented!() }
 #[verifier::external_body]
 pub fn parse_token_extensions<'a>(tlv: &'a [u8]) -> (r: Result<TokenExtensions<'a>>)
     ensures r matches Ok(e) ==> (e.transfer_fee_config matches Some(c) ==> c.wf()),
+        r matches Ok(e) ==> (match ext_of(tlv@) { Some(c) => e.transfer_fee_config matches Some(rc) && *rc == c, None => e.transfer_fee_config is None }),
 { unimplemented!() }
 
 /// the schedule in force: the newer one from its epoch on, the older one before (the epoch comes from the Clock sysvar stub)
@@ -244,6 +258,7 @@ pub fn parse_token_extensions<'a>(tlv: &'a [u8]) -> (r: Result<TokenExtensions<'
     requires token_extensions.transfer_fee_config matches Some(c) ==> c.wf(),
     ensures
         token_extensions.transfer_fee_config is None ==> r matches Ok(None),
+        r matches Ok(o) ==> o == (match token_extensions.transfer_fee_config { Some(c) => Some(pino_schedule_of(*c)), None => None }),
         r matches Ok(Some(f)) ==> f.wf() && (token_extensions.transfer_fee_config matches Some(c) && (
                (current_epoch() >= c.newer_epoch() && f.epoch.0 == c.newer_epoch() && f.maximum_fee.0 == c.newer_max() && f.transfer_fee_basis_points.0 == c.newer_bps())
             || (current_epoch() < c.newer_epoch() && f.epoch.0 == c.older_epoch() && f.maximum_fee.0 == c.older_max() && f.transfer_fee_basis_points.0 == c.older_bps()))),
@@ -253,11 +268,14 @@ pub fn parse_token_extensions<'a>(tlv: &'a [u8]) -> (r: Result<TokenExtensions<'
     ensures
         r matches Ok(x) ==> x.amount as int + x.transfer_fee as int == transfer_fee_included_amount as int
             && (x.transfer_fee == 0 || exists|f: TransferFee| #[trigger] f.wf() && x.transfer_fee as int == f.fee(transfer_fee_included_amount as int)),
+        // the fee is the one of THIS mint account's schedule in force
+        r matches Ok(x) ==> x.transfer_fee as int == pino_mint_fee(*token_mint_info, transfer_fee_included_amount as int),
 //@ end
 
 //@ fn pinocchio/ported/util_token.rs pino_calculate_transfer_fee_included_amount -> r
     ensures
         r matches Ok(x) ==> x.amount as int == transfer_fee_excluded_amount as int + x.transfer_fee as int,
+        r matches Ok(x) ==> x.transfer_fee as int == pino_mint_fee(*token_mint_info, x.amount as int),
         r is Ok && r->Ok_0.transfer_fee != 0 ==> exists|f: TransferFee| #[trigger] f.wf() && r->Ok_0.transfer_fee as int == f.fee(r->Ok_0.amount as int),
         transfer_fee_excluded_amount == 0 ==> (r matches Ok(x) && x.amount == 0 && x.transfer_fee == 0),
 //@ inject before /return Ok\(TransferFeeIncludedAmount \{\n\s*amount: transfer_fee_included_amount/
